@@ -8,12 +8,14 @@ encodings (`0x80 0x00` for 0) are accepted by the decoder; `from_bytes` ignores 
 
 namespace Postcard
 
-/-- `varint_u64` -/
-def encVarint (n : Nat) : Bytes :=
-  if h : n < 128 then [UInt8.ofNat n]
-  else UInt8.ofNat (n % 128 + 128) :: encVarint (n / 128)
-termination_by n
-decreasing_by omega
+/-- `varint_u64`: at most nine continuation bytes and a final one -/
+def encVarintAux : (fuel : Nat) → Nat → Bytes
+  | 0, n => [UInt8.ofNat n]
+  | fuel + 1, n =>
+    if n < 128 then [UInt8.ofNat n]
+    else UInt8.ofNat (n % 128 + 128) :: encVarintAux fuel (n / 128)
+
+def encVarint (n : Nat) : Bytes := encVarintAux 9 n
 
 /-- `try_take_varint_u64` (also `usize` on 64-bit): at most 10 bytes, the tenth at most 1 -/
 def decVarintAux : (fuel : Nat) → (i : Nat) → (acc : Nat) → Bytes → Option (Nat × Bytes)
